@@ -1110,6 +1110,9 @@ func runC05(c *core.Ctx) {
 		"cell geometry (Cell.Vertex, Cell.Center, CellID hierarchy, Cell.ContainsPoint) is trusted here; it is the subject of C01/C12",
 		"MaxCells is a soft limit and is not asserted",
 	}
+	if c.OnlySub == "" || c.OnlySub == "cap-grid" || c.OnlySub == "cap-grid-covering" {
+		c05CapGrid(c)
+	}
 	st := &c05Stats{}
 	regions := c05Catalogue(c)
 	structural := lattice.PStruct(core.Pick(c, 2, 3))
